@@ -68,6 +68,11 @@ CLAIMED = {
    text="Structural necessary conditions decided at every site: no request-reachable function of the interpreter writes the shared Interpreter/TypeChecker/ModuleResolver/globalEnv/package state without a lock; each compiled request executes on a VM created in its own closure and each interpreted request in an Environment created in ExecuteRoute; every access to the mock/real provider stores is under the owning mutex and no lookup-unlock-relock-write sequence exists; store methods neither return stored maps nor keep caller maps without copying; compiledTypeDefs is assigned only by setCompiledTypeDefs from setupRoutes and the compiled request path keeps no package-level Once/Pool state.",
    note="Does not cover atomicity of multi-step protocols in user programs, scheduling-dependent outcomes, sharing of nested values inside copied records. Known findings: the evaluation-depth budget and TypeChecker.typeScope are shared between concurrent requests. Trusted: go/types, go/ssa, CHA call graph.",
    ref="DESIGN.md §3 C08"),
+ "C05": dict(
+   technique="static analysis: key-provenance def-use (interprocedural over route helpers), guard-edge path queries on both dispatchers, registration-literal def-use, router who-may-write / comparison-shape rules, switch exhaustiveness",
+   text="Structural necessary conditions decided at every site: compiled bytecode is stored and fetched under a key derived from both the route's method and path; each dispatcher invokes a handler only on Router.Match's success edge, runs the matched route, binds its path parameters and answers 404 (running nothing) otherwise; every server.Route built from a declaration carries that declaration's path and converted method, and the conversion has a distinct arm per method; the route table is written only by RegisterRoute (append, never sorted), Match returns only matchRoute hits, scans all candidates and replaces its best only on a strict fewer-parameters comparison; the interpreter receives the decoded URL path.",
+   note="Does not cover Match's specificity order as a function over all tables/requests, nor net/url and ServeMux behaviour. Trusted: go/types, go/ssa.",
+   ref="DESIGN.md §3 C05"),
 }
 
 NA_REASONS = {}
